@@ -8,6 +8,7 @@ import (
 	"math/rand"
 	"os"
 	"runtime"
+	"strings"
 	"time"
 
 	"verifharness/pipx"
@@ -43,11 +44,30 @@ func cmdPipTrace(args []string) error {
 		nt := 1 + r.Intn(8)
 		var specs []*pipx.TaskSpec
 		var accepted []string
+		used := map[string]bool{}
 		for i := 0; i < nt; i++ {
 			t := &pipx.TaskSpec{Name: fmt.Sprintf("t%d", i)}
+			if g%2 == 1 {
+				// namespaces: few short names, so that tasks in different namespaces carry EQUAL short names
+				for {
+					t.NS = []string{"", "x", "y", "x:in"}[r.Intn(4)]
+					t.Short = []string{"build", "test", "deploy"}[r.Intn(3)]
+					t.Name = t.Short
+					if t.NS != "" {
+						t.Name = t.NS + ":" + t.Short
+					}
+					if !used[t.Name] {
+						break
+					}
+				}
+			}
+			used[t.Name] = true
 			for _, prev := range accepted {
 				if r.Intn(3) == 0 {
 					t.Wait = append(t.Wait, prev)
+					if r.Intn(6) == 0 {
+						t.Wait = append(t.Wait, prev) // a name may be listed twice
+					}
 				}
 			}
 			if r.Intn(8) == 0 {
@@ -57,7 +77,7 @@ func cmdPipTrace(args []string) error {
 				t.Wait = append(t.Wait, t.Name) // waits for itself: must be rejected
 			}
 			for c := 0; c < 1+r.Intn(3); c++ {
-				id := fmt.Sprintf("%s_c%d", t.Name, c)
+				id := fmt.Sprintf("%s_c%d", strings.Replace(t.Name, ":", "-", -1), c)
 				t.Cmds = append(t.Cmds, id)
 				var delay time.Duration
 				if r.Intn(2) == 0 {
